@@ -16,6 +16,8 @@ CATS = ["A", "B", "C", "D", "E", "F", "G", "H", "I", "J"]
 
 def _index(rng, n):
     k = rng.random()
+    if k < 0.08:
+        return pd.Index([i // 2 for i in range(n)])       # duplicated index labels (frames put together with concat)
     if k < 0.5:
         return pd.RangeIndex(n)
     if k < 0.7:
